@@ -104,6 +104,21 @@ fn empty_fragment() -> InMemDicomObject {
     ])
 }
 
+/// odd-length fragments, an empty offset table, a multi-frame offset table
+fn odd_fragments() -> InMemDicomObject {
+    InMemDicomObject::from_element_iter([
+        DataElement::new(Tag(0x0008, 0x0018), VR::UI, PrimitiveValue::from("2.25.57")),
+        DataElement::new(Tag(0x0028, 0x0008), VR::IS, PrimitiveValue::from("3")),
+        DataElement::new(Tag(0x7FE0, 0x0010), VR::OB, Value::from(PixelFragmentSequence::new(vec![0u32, 12, 22], vec![vec![1u8, 2, 3, 4], vec![5u8, 6], vec![7u8, 8, 9, 10, 11, 12]]))),
+    ])
+}
+fn empty_offset_table() -> InMemDicomObject {
+    InMemDicomObject::from_element_iter([
+        DataElement::new(Tag(0x0008, 0x0018), VR::UI, PrimitiveValue::from("2.25.58")),
+        DataElement::new(Tag(0x7FE0, 0x0010), VR::OB, Value::from(PixelFragmentSequence::new(vec![], vec![vec![1u8, 2, 3, 4, 5, 6]]))),
+    ])
+}
+
 /// DICOM text of a primitive value, without trailing padding (the documented normalisation)
 fn text_of(v: &PrimitiveValue) -> String {
     let t = match v {
@@ -276,10 +291,47 @@ fn defined_lengths(t: &mut Tally) {
     }
 }
 
+/// complete files: 128-byte preamble, "DICM", the meta group ALWAYS in Explicit VR LE whose group length ends it exactly,
+/// then the data set in the transfer syntax the meta group names; read back gives an equal object
+fn files(t: &mut Tally, objects: &[(&str, InMemDicomObject)]) {
+    use dicom_object::FileMetaTableBuilder;
+    for (oname, obj) in objects {
+        for (uid, tname, be, explicit) in [("1.2.840.10008.1.2", "Implicit VR LE", false, false), ("1.2.840.10008.1.2.1", "Explicit VR LE", false, true), ("1.2.840.10008.1.2.2", "Explicit VR BE", true, true)] {
+            t.cases += 1;
+            let label = format!("file: {} in {}", oname, tname);
+            let mut o = obj.clone();
+            o.put(DataElement::new(Tag(0x0008, 0x0016), VR::UI, PrimitiveValue::from("1.2.840.10008.5.1.4.1.1.7")));
+            let file = match o.with_meta(FileMetaTableBuilder::new().transfer_syntax(uid)) { Ok(f) => f, Err(e) => { t.fail(format!("{}: no meta table: {}", label, e)); continue; } };
+            let mut bytes = Vec::new();
+            if let Err(e) = file.write_all(&mut bytes) { t.fail(format!("{}: writing failed: {}", label, e)); continue; }
+            if bytes.len() < 144 || bytes[..128].iter().any(|b| *b != 0) || &bytes[128..132] != b"DICM" { t.fail(format!("{}: no zero preamble + DICM at the start", label)); continue; }
+            // group length element (0002,0000) UL 4
+            if bytes[132..140] != [0x02, 0x00, 0x00, 0x00, b'U', b'L', 0x04, 0x00] { t.fail(format!("{}: the file meta group does not start with (0002,0000) UL 4 in Explicit VR LE: {:02X?}", label, &bytes[132..144])); continue; }
+            let glen = u32::from_le_bytes([bytes[140], bytes[141], bytes[142], bytes[143]]) as usize;
+            let meta_end = 144 + glen;
+            if meta_end > bytes.len() { t.fail(format!("{}: group length {} runs past the end of the file", label, glen)); continue; }
+            let wk = Walker { b: &bytes[144..meta_end], be: false, explicit: true };
+            match wk.dataset(0, None, 0) { Ok(n) if n == glen => {} other => { t.fail(format!("{}: the meta group (Explicit VR LE, {} bytes by its group length) is not structurally valid: {:?}", label, glen, other)); continue; } }
+            // every element of the meta group is in group 0002, and the data set starts right after it
+            let mut i = 144; let mut in_group = true;
+            while i < meta_end { if bytes[i] != 0x02 || bytes[i + 1] != 0x00 { in_group = false; } let short = matches!(&bytes[i + 4..i + 6], b"UI" | b"SH" | b"AE" | b"UL"); let l = if short { u16::from_le_bytes([bytes[i + 6], bytes[i + 7]]) as usize + 8 } else { u32::from_le_bytes([bytes[i + 8], bytes[i + 9], bytes[i + 10], bytes[i + 11]]) as usize + 12 }; i += l; }
+            if !in_group || i != meta_end { t.fail(format!("{}: the group length does not end the meta group at an element boundary inside group 0002", label)); continue; }
+            let ds = &bytes[meta_end..];
+            let wk = Walker { b: ds, be, explicit };
+            match wk.dataset(0, None, 0) { Ok(n) if n == ds.len() => {} other => { t.fail(format!("{}: the data set part is not structurally valid in {}: {:?}", label, tname, other)); continue; } }
+            match dicom_object::from_reader(&bytes[..]) {
+                Ok(back) => { if let Some(d) = differs(&file, &back, !explicit) { t.fail(format!("{}: read back differs: {}", label, d)); } else if back.meta() != file.meta() { t.fail(format!("{}: meta table read back differs", label)); } }
+                Err(e) => t.fail(format!("{}: the file does not read back: {}", label, e)),
+            }
+        }
+    }
+}
+
 fn main() {
     let mut t = Tally { cases: 0, bad: 0 };
     let objects = [("flat object", flat()), ("nested sequences", nested()), ("encapsulated pixel data", encapsulated()),
-                   ("encapsulated pixel data inside sequence items", icon()), ("pixel data with empty fragments", empty_fragment())];
+                   ("encapsulated pixel data inside sequence items", icon()), ("pixel data with empty fragments", empty_fragment()),
+                   ("multi-frame offset table", odd_fragments()), ("empty offset table", empty_offset_table())];
     let syntaxes = [
         (entries::IMPLICIT_VR_LITTLE_ENDIAN.erased(), "Implicit VR LE", Some((false, false))),
         (entries::EXPLICIT_VR_LITTLE_ENDIAN.erased(), "Explicit VR LE", Some((false, true))),
@@ -315,5 +367,6 @@ fn main() {
         }
     }
     defined_lengths(&mut t);
+    files(&mut t, &objects);
     println!("EXHAUSTIVE unit=C01.objects cases={} mismatches={}", t.cases, t.bad);
 }
